@@ -496,6 +496,92 @@ Proof.
   eapply reach_bind; [exact H|]. intros s' [A B]. apply reach_now. split; [exact A|]. rewrite B, Ho. reflexivity.
 Qed.
 
+(* non-vacuity of (4) for ELSE:  10 I = I + 1 / 20 IF I < 3 THEN PRINT I; ELSE PRINT 9; /
+   30 IF I < 3 THEN 10 ELSE END *)
+Definition ex5_lines := [HLine (bs "10 I = I + 1"); HLine (bs "20 IF I < 3 THEN PRINT I; ELSE PRINT 9;"); HLine (bs "30 IF I < 3 THEN 10 ELSE END")].
+Definition ex5_s : interp := set_state Running (snd (run_from_first_numbered_line (StoreProofs.run_state 50 init_interp ex5_lines))).
+Definition n9 : f64 := f64_of_Z 9.
+Definition ex5_p : rprogram :=
+  [(10%N, [SLet vI [] (XBin RAdd (XVar vI) (XNum n1))]);
+   (20%N, [SIf cI3 (AStmt (SPrint [PExpr (XVar vI); PSemi])) (Some (AStmt (SPrint [PExpr (XNum n9); PSemi])))]);
+   (30%N, [SIf cI3 (ALine 10%N) (Some (AStmt SEnd))])].
+
+Lemma ex5_line20 : LRen 8 [SIf cI3 (AStmt (SPrint [PExpr (XVar vI); PSemi])) (Some (AStmt (SPrint [PExpr (XNum n9); PSemi])))]
+   (TIf :: [TSymbol vI; TLessThan; TNumber n3] ++ TThen :: [TPrint; TSymbol vI; TSemicolon] ++ TElse :: [TPrint; TNumber n9; TSemicolon]).
+Proof.
+  apply LR_last.
+  apply (SR_if_else_stmt 8 0 [] cI3 cI3' [TSymbol vI; TLessThan; TNumber n3]
+           (AStmt (SPrint [PExpr (XVar vI); PSemi])) [TPrint; TSymbol vI; TSemicolon]
+           (SPrint [PExpr (XNum n9); PSemi]) [TPrint; TNumber n9; TSemicolon]);
+    try reflexivity; try apply cI3_renders; try (cbn; lia).
+  - apply (TR_print 8 1 _ [PExpr (XVar vI); PSemi] [MExpr (EVar vI); MSemi] [TSymbol vI; TSemicolon]); try reflexivity; try (cbn; lia).
+    apply (IR_expr _ (EVar vI) [TSymbol vI] [MSemi] [TSemicolon]); [apply R0_var | reflexivity|].
+    apply IR_semi. apply IR_nil. reflexivity.
+  - apply (SR_print 8 1 [] [PExpr (XNum n9); PSemi] [MExpr (ENum n9); MSemi] [TNumber n9; TSemicolon]); try reflexivity; try (cbn; lia).
+    apply (IR_expr [] (ENum n9) [TNumber n9] [MSemi] [TSemicolon]); [apply R0_num | reflexivity|].
+    apply IR_semi. apply IR_nil. reflexivity.
+Qed.
+
+Lemma ex5_line30 : LRen 8 [SIf cI3 (ALine 10%N) (Some (AStmt SEnd))]
+   (TIf :: [TSymbol vI; TLessThan; TNumber n3] ++ TThen :: [TNumber n10] ++ TElse :: [TEnd]).
+Proof.
+  apply LR_last.
+  apply (SR_if_else_stmt 8 0 [] cI3 cI3' [TSymbol vI; TLessThan; TNumber n3] (ALine 10%N) [TNumber n10] SEnd [TEnd]);
+    try reflexivity; try apply cI3_renders; try (cbn; lia).
+  - apply TR_line. reflexivity.
+  - apply SR_end.
+Qed.
+
+Example ex5_sim : Sim 8 ex5_p [] (0, 0) (r_init 0) ex5_s.
+Proof.
+  apply (Sim_at 8 ex5_p [] 0 0 (r_init 0) ex5_s false).
+  - split; try reflexivity.
+    + repeat constructor.
+    + intros li n stmts H.
+      destruct li as [|[|[|li]]]; cbn in H; try (destruct li; discriminate); inversion H; subst; eexists; (split; [vm_compute; reflexivity|]).
+      * apply LR_last.
+        apply (SR_let 8 0 [] vI (XBin RAdd (XVar vI) (XNum n1)) (EBin (BAddSub OAdd) (EVar vI) (ENum n1)) [TSymbol vI; TPlus; TNumber n1]); try reflexivity; try (cbn; lia).
+        do 3 (apply R_incl; [lia|]).
+        apply (R_bin (BAddSub OAdd) (EVar vI) (ENum n1) [TSymbol vI] [TNumber n1]).
+        -- do 4 (apply R_incl; [cbn; lia|]). constructor.
+        -- do 3 (apply R_incl; [cbn; lia|]). constructor.
+      * exact ex5_line20.
+      * exact ex5_line30.
+    + intros n H.
+      assert (E : st_toks ex5_s = [(30%N, [TIf; TSymbol vI; TLessThan; TNumber n3; TThen; TNumber n10; TElse; TEnd]);
+                                  (20%N, [TIf; TSymbol vI; TLessThan; TNumber n3; TThen; TPrint; TSymbol vI; TSemicolon; TElse; TPrint; TNumber n9; TSemicolon]);
+                                  (10%N, [TSymbol vI; TEquals; TSymbol vI; TPlus; TNumber n1])]) by (vm_compute; reflexivity).
+      rewrite E in H. cbn [toks_get] in H. cbn [map fst ex5_p In].
+      destruct (N.eqb_spec 30 n); [subst; tauto|].
+      destruct (N.eqb_spec 20 n); [subst; tauto|]. destruct (N.eqb_spec 10 n); [subst; tauto|].
+      exfalso. apply H. reflexivity.
+  - reflexivity.
+  - split; intros name; reflexivity.
+  - reflexivity.
+  - split; [reflexivity | constructor].
+  - constructor.
+  - intros name x H. vm_compute in H. discriminate.
+  - exists 10%N, [SLet vI [] (XBin RAdd (XVar vI) (XNum n1))], [TSymbol vI; TEquals; TSymbol vI; TPlus; TNumber n1], [TSymbol vI; TEquals; TSymbol vI; TPlus; TNumber n1].
+    repeat split; try reflexivity.
+    apply LR_last.
+    apply (SR_let 8 0 [] vI (XBin RAdd (XVar vI) (XNum n1)) (EBin (BAddSub OAdd) (EVar vI) (ENum n1)) [TSymbol vI; TPlus; TNumber n1]); try reflexivity; try (cbn; lia).
+    do 3 (apply R_incl; [lia|]).
+    apply (R_bin (BAddSub OAdd) (EVar vI) (ENum n1) [TSymbol vI] [TNumber n1]).
+    + do 4 (apply R_incl; [cbn; lia|]). constructor.
+    + do 3 (apply R_incl; [cbn; lia|]). constructor.
+Qed.
+Example ex5_runs : exists st', rrun 8 ex5_p 40 (0,0) (r_init 0) = Done st' /\ r_out st' = [bs "1"; bs "2"; bs "9"]
+  /\ reach (fun s => state s = Idle /\ outputs s = map OPrint [bs "1"; bs "2"; bs "9"]) ex5_s.
+Proof.
+  pose proof (fragment_simulation 8 ex5_p [] 40 (0,0) (r_init 0) ex5_s ex5_sim) as H.
+  destruct (rrun 8 ex5_p 40 (0,0) (r_init 0)) as [pc st'|st'|er l st'|] eqn:E; try (vm_compute in E; discriminate).
+  exists st'. split; [reflexivity|].
+  assert (Ho : r_out st' = [bs "1"; bs "2"; bs "9"]).
+  { vm_compute in E. inversion E. reflexivity. }
+  split; [exact Ho|]. unfold after_step in H.
+  eapply reach_bind; [exact H|]. intros s' [A B]. apply reach_now. split; [exact A|]. rewrite B, Ho. reflexivity.
+Qed.
+
 (* non-vacuity: the manual's nested-loop example (NEXT I forgets the J loop)
    and a GOSUB in a colon line, run by the reference interpreter *)
 Definition nx := XNum (f64_of_Z 1).
